@@ -7,6 +7,7 @@
    (Actisense, Yacht Devices) — ASCII stream, every line (and the unterminated tail) at most `limit`
    bytes before its LF (limit = StreamReader's 64 KiB default). *)
 From NV Require Import Base Stream StreamProofs.
+From NV Require Serial SerialProofs.
 
 Section C12.
 Variables D M : Type.
@@ -32,8 +33,12 @@ Theorem C12_chunking_any_schedule : forall k limit d0 ls g,
   seen g ++ frame k (buf (rd g)) = frame k (concat (chunks_of ls)).
 Proof. exact (chunking_run D M decode). Qed.
 
-(* SERIAL: the Waveshare client's framing (frame_serial, chunk independence of the AA 55 loop) is
-   Serial.v / SerialProofs.v `C20_chunking`; the lead adds the corollary C12_chunking_serial here. *)
+(* SERIAL: the Waveshare client's framing (the AA 55 marker loop of Serial.v): for any two segmentations of the
+   same byte stream into reads (1 byte at a time ... everything at once; boundaries inside the marker) the loop
+   hands exactly the same 20-byte packets, in the same order, to decode_usb and is left with the same buffer *)
+Theorem C12_chunking_serial : forall chunks chunks',
+  concat chunks = concat chunks' -> NV.Serial.feed [] chunks = NV.Serial.feed [] chunks'.
+Proof. intros c c' E. apply NV.SerialProofs.chunking_any_two; [reflexivity | exact E]. Qed.
 
 (* the key lemmas: a completed read does not depend on bytes that arrive later *)
 Theorem C12_first_lf_stable : forall b c i, find_lf b = Some i -> find_lf (b ++ c) = Some i.
@@ -86,6 +91,7 @@ End C12.
 
 Print Assumptions C12_chunking_ebyte.
 Print Assumptions C12_chunking_lines.
+Print Assumptions C12_chunking_serial.
 Print Assumptions C12_chunking_any_schedule.
 Print Assumptions C12_readline_stable.
 Print Assumptions C12_readexactly_stable.
